@@ -21,8 +21,10 @@ A worker goroutine is the life cycle of its object: `reg` (registered, not start
 time, cancelled or not) → `ret` (handler returned) → `dn` (`wg.Done`) → `cl` (`cleanupWorker` under the
 lock) → `fin` (`running` flag cleared).  A thread `wk i` drives object `i`.
 
-`sys true` is the code after the two repairs (stopped flag set and re-checked under the lock);
-`sys false` is the code before them, kept for the witnesses.
+`sys true true` is the code after the repairs: `fixed` = the stopped flag is set and re-checked under the
+lock (`BackgroundWorker`, `Start`); `runFixed` = `Run` waits, under the lock, until the counter of running
+workers is zero instead of copying the per-order WaitGroups once.  `sys false _` / `sys true false` are the
+code before the respective repair, kept for the witnesses.
 -/
 namespace Hive.Daemon
 
@@ -67,6 +69,7 @@ structure St where
   regl : List Nat
   wgc : Int → Nat
   wgKeys : List Int
+  rw : Nat               -- `runningWorkers`: started and not yet cleaned up (guarded by the lock)
   sd : SdPc
   tr : List Ev
 
@@ -74,7 +77,7 @@ def blank : Wk := ⟨0, 0, .fin, false, false⟩
 
 def init : St :=
   { stopped := false, running := false, cleared := false, n := 0, objs := fun _ => blank, regl := [],
-    wgc := fun _ => 0, wgKeys := [], sd := .idle, tr := [] }
+    wgc := fun _ => 0, wgKeys := [], rw := 0, sd := .idle, tr := [] }
 
 def emit (e : Ev) (s : St) : St := { s with tr := s.tr ++ [e] }
 
@@ -100,13 +103,14 @@ def sortedPerms (ord : Nat → Int) (l : List Nat) : List (List Nat) := (perms l
 
 /-! ## worker goroutine -/
 
-/-- `runBackgroundWorker`: `wg.Add(1)`, `running.Store(true)`, `go`.  (Only ever called for a registered
+/-- `runBackgroundWorker`: `wg.Add(1)`, `runningWorkers++`, `running.Store(true)`, `go`.  (Only ever called for a registered
 worker that has not been started; the guard makes the function total.) -/
 def spawn1 (s : St) (i : Nat) : St :=
   let w := s.objs i
   if w.pc == .reg then
     emit (.start i w.name w.order)
-      { setObj s i { w with pc := .run } with wgc := fun o => if o = w.order then s.wgc o + 1 else s.wgc o }
+      { setObj s i { w with pc := .run } with
+        wgc := fun o => if o = w.order then s.wgc o + 1 else s.wgc o, rw := s.rw + 1 }
   else s
 
 def wkStep (s : St) (i : Nat) : List St :=
@@ -122,9 +126,11 @@ def wkStep (s : St) (i : Nat) : List St :=
     | .ret =>
       [{ setObj s i { w with pc := .dn } with wgc := fun o => if o = w.order then s.wgc o - 1 else s.wgc o }]
     | .dn =>
-      -- cleanupWorker: under the lock; nothing is removed once the daemon is stopped
-      if s.stopped then [setObj s i { w with pc := .cl }]
-      else [{ setObj s i { w with pc := .cl } with regl := s.regl.filter (fun j => (s.objs j).name != w.name) }]
+      -- cleanupWorker: under the lock; `runningWorkers--` (and the broadcast that lets a waiting `Run`
+      -- re-check); nothing is removed from the registry once the daemon is stopped
+      if s.stopped then [{ setObj s i { w with pc := .cl } with rw := s.rw - 1 }]
+      else [{ setObj s i { w with pc := .cl } with
+              rw := s.rw - 1, regl := s.regl.filter (fun j => (s.objs j).name != w.name) }]
     | .cl => [setObj s i { w with pc := .fin }]
     | .fin => []
   else []
@@ -217,7 +223,7 @@ inductive Th
   | watcher                                         -- somebody polling `IsStopped`
   deriving DecidableEq, Repr
 
-def step (fixed : Bool) (s : St) : Th → List (St × Th)
+def step (fixed runFixed : Bool) (s : St) : Th → List (St × Th)
   | .bw c name order .call =>
     let s1 := emit (.bwcall c name order) s
     if s.stopped then [(emit (.refuse c name .stopped) s1, .bw c name order .fin)]
@@ -246,15 +252,23 @@ def step (fixed : Bool) (s : St) : Th → List (St × Th)
     let s1 := emit (.runcall c) s
     if s.stopped then [(s1, .runner c .started)] else [(s1, .runner c .passed)]
   | .runner c .passed => [(startCrit fixed s, .runner c .started)]
-  | .runner c .started => [(emit (.runsnap c) s, .runner c (.waiting s.wgKeys))]
-  | .runner c (.waiting []) => [(emit (.runret c) s, .runner c .fin)]
+  | .runner c .started =>
+    if runFixed then
+      -- repaired `Run`: under the lock, `for d.runningWorkers > 0 { d.workersDone.Wait() }`
+      (if s.rw = 0 then [(emit (.runret c) s, .runner c .fin)] else [])
+    else
+      -- `Run` before its repair: copy the per-order WaitGroups once, then pass them one by one
+      [(emit (.runsnap c) s, .runner c (.waiting s.wgKeys))]
+  | .runner c (.waiting []) => if runFixed then [] else [(emit (.runret c) s, .runner c .fin)]
   | .runner c (.waiting (k :: ks)) =>
-    -- Go's map iteration order is arbitrary: any of the copied WaitGroups whose counter is zero is passed
-    ((k :: ks).filter (fun o => s.wgc o == 0)).map fun o => (s, .runner c (.waiting ((k :: ks).erase o)))
+    -- (old `Run` only) Go's map iteration order is arbitrary: any of the copied WaitGroups whose counter is
+    -- zero is passed
+    if runFixed then []
+    else ((k :: ks).filter (fun o => s.wgc o == 0)).map fun o => (s, .runner c (.waiting ((k :: ks).erase o)))
   | .runner _ .fin => []
   | .watcher => if s.stopped then [(emit .stopseen s, .watcher)] else []
 
-def sys (fixed : Bool) : Hive.Conc.Sys St Th := ⟨step fixed⟩
+def sys (fixed runFixed : Bool) : Hive.Conc.Sys St Th := ⟨step fixed runFixed⟩
 
 /-- Threads as they are before their call begins. -/
 def Th.isInit : Th → Bool
